@@ -1790,4 +1790,498 @@ theorem rel_run (ops : List Op) :
 theorem rel_empty : Rel Source.empty Track.init :=
   ⟨rfl, rfl, fun _ => rfl, fun _ => Or.inl rfl⟩
 
+/-! ### the whole-buffer-line reading -/
+
+theorem foldl_lineDelta_shift (ps : List (List Char × Bool)) (a : Int) :
+    ps.foldl (fun a p => a + lineDelta p.1) a = a + ps.foldl (fun a p => a + lineDelta p.1) 0 := by
+  induction ps generalizing a with
+  | nil => simp
+  | cons p ps ih => rw [List.foldl_cons, ih, List.foldl_cons, ih (0 + lineDelta p.1)]; omega
+
+theorem bufferLevel_append (a b : List Char) (h : LineStart a) :
+    bufferLevel (a ++ b) = bufferLevel a + bufferLevel b := by
+  unfold bufferLevel
+  rw [splitNl_append_lineStart a b h, List.foldl_append, foldl_lineDelta_shift]
+
+theorem bufferLevel_line (l : List Char) (h : '\n' ∉ l) : bufferLevel (l ++ ['\n']) = lineDelta l := by
+  unfold bufferLevel
+  rw [splitNl_line l [] h]; simp [splitNl]
+
+/-- the buffer line written for a piece pushed at a line start counts like the piece -/
+theorem lineDelta_piece (single : Bool) (st : Source) (tr : Track) (p : List Char × Bool)
+    (hc : tr.inComment = false) :
+    lineDelta (indentOf true (lineOf p) st ++ (if single then lineOf p else trimStart (lineOf p)))
+      = tr.delta (mkPiece single true p) := by
+  have hw : ∀ c ∈ indentOf true (lineOf p) st, isWhite c = true := fun c hc => (ws_indentOf true (lineOf p) st c hc).1
+  have ht : trim (indentOf true (lineOf p) st ++ (if single then lineOf p else trimStart (lineOf p))) = trim p.1 := by
+    rw [trim_white_append _ _ hw]
+    cases single
+    · simp only [Bool.false_eq_true, if_false]; rw [trim_trimStart, trim_lineOf]
+    · simp only [if_true]; rw [trim_lineOf]
+  simp only [lineDelta, ht, Track.delta, Track.eff, Track.comment, mkPiece, Piece.isComment, Piece.opens, Piece.closes, hc,
+    Bool.false_or, Bool.true_and]
+  cases startsWith (trim p.1) ['/', '/'] <;> simp
+
+theorem bufferLevel_fold (single : Bool) (ps : List (List Char × Bool))
+    (hall : ∀ p ∈ ps, p.2 = true) (hn : ∀ p ∈ ps, '\n' ∉ p.1) :
+    ∀ (st : Source) (tr : Track), Rel st tr → st.continuingLine = false → tr.inComment = false →
+      bufferLevel (ps.foldl (pushPiece single true) st).s - ((ps.map (mkPiece single true)).foldl Track.piece tr).level
+        = bufferLevel st.s - tr.level := by
+  induction ps with
+  | nil => intro st tr _ _ _; rfl
+  | cons p ps ih =>
+    intro st tr hr hc hcm
+    obtain ⟨l, b⟩ := p
+    have hb : b = true := hall (l, b) (by simp)
+    subst hb
+    have hl := lineOf_noNl (l, true) (hn (l, true) (by simp))
+    have hst1 : pushPiece single true st (l, true) = newline (pushLine single true (lineOf (l, true)) st) := by
+      simp [pushPiece]
+    have hr1 := rel_piece single true st tr (l, true) hr
+    simp only [List.foldl_cons, List.map_cons]
+    rw [ih (fun q hq => hall q (by simp [hq])) (fun q hq => hn q (by simp [hq])) _ _ hr1 (by rw [hst1]; rfl)
+      (by simp [Track.piece, mkPiece])]
+    rw [hst1, newline_s, pushLine_s_lineStart single true _ st hc (hr.ls hc)]
+    have hno : '\n' ∉ indentOf true (lineOf (l, true)) st ++ (if single then lineOf (l, true) else trimStart (lineOf (l, true))) := by
+      simp only [List.mem_append, not_or]
+      exact ⟨indentOf_noNl _ _ _, shownM_noNl _ _ hl⟩
+    rw [List.append_assoc, List.append_assoc, bufferLevel_append _ _ (hr.ls hc), ← List.append_assoc,
+      bufferLevel_line _ hno, lineDelta_piece single st tr (l, true) hcm]
+    simp only [Track.piece]
+    omega
+
+theorem piece_cm (tr : Track) (p : Piece) (h : (tr.piece p).midLine = false) : (tr.piece p).inComment = false := by
+  simp only [Track.piece, Bool.not_eq_eq_eq_not, Bool.not_false] at h ⊢
+  simp [h]
+
+theorem pieces_cm (ps : List Piece) (tr : Track) (h0 : tr.midLine = false → tr.inComment = false)
+    (h : (ps.foldl Track.piece tr).midLine = false) : (ps.foldl Track.piece tr).inComment = false := by
+  induction ps generalizing tr with
+  | nil => exact h0 h
+  | cons p ps ih => exact ih (tr.piece p) (piece_cm tr p) h
+
+theorem pieces_levelOk_mono (ps : List Piece) (tr : Track) (h : (ps.foldl Track.piece tr).levelOk = true) :
+    tr.levelOk = true := by
+  induction ps generalizing tr with
+  | nil => exact h
+  | cons p ps ih =>
+    have := ih (tr.piece p) h
+    simp only [Track.piece, Bool.and_eq_true] at this
+    exact this.1
+
+theorem pieces_midLine (single interp : Bool) (ps : List (List Char × Bool)) (hne : ps ≠ []) (tr : Track) :
+    ((ps.map (mkPiece single interp)).foldl Track.piece tr).midLine = !lastTerm ps := by
+  induction ps generalizing tr with
+  | nil => exact absurd rfl hne
+  | cons p ps ih =>
+    cases ps with
+    | nil => simp [Track.piece, mkPiece, lastTerm]
+    | cons q r =>
+      rw [List.map_cons, List.foldl_cons, ih (by simp), lastTerm_cons p (q :: r) (by simp)]
+
+theorem pieces_all_term (ps : List (List Char × Bool)) (hp : Pieces ps) (h : lastTerm ps = true) :
+    ∀ p ∈ ps, p.2 = true := by
+  induction hp with
+  | nil => intro p hp; simp at hp
+  | last l t _ => intro p hp; simp at hp; subst hp; simpa [lastTerm] using h
+  | cons l ps hne _ ih =>
+    intro p hp
+    rw [lastTerm_cons _ _ hne] at h
+    simp only [List.mem_cons] at hp
+    rcases hp with rfl | hp
+    · rfl
+    · exact ih h p hp
+
+/-! ### content after an `append_src` that left the line state stale -/
+
+/-- with `continuing_line` unset, a line is pushed as onto the buffer with the indentation already written -/
+def withIndent (st : Source) (line : List Char) : Source :=
+  { st with s := if line.isEmpty then st.s else st.s ++ spaces st.indent, continuingLine := true }
+
+theorem pushLine_stale (single interp : Bool) (line : List Char) (st : Source) (hc : st.continuingLine = false) :
+    pushLine single interp line st = pushLine single interp line (withIndent st line) := by
+  cases hl : line.isEmpty <;> simp [pushLine, withIndent, hc, hl]
+
+theorem pushStrImpl_stale (st : Source) (t : List Char) (interp : Bool) (hc : st.continuingLine = false)
+    (p0 : List Char × Bool) (rest : List (List Char × Bool)) (hs : splitNl t = p0 :: rest) :
+    pushStrImpl st t interp = pushStrImpl (withIndent st (lineOf p0)) t interp := by
+  rw [pushStrImpl_eq, pushStrImpl_eq, hs]
+  simp only [List.foldl_cons]
+  congr 1
+  unfold pushPiece
+  rw [pushLine_stale _ interp (lineOf p0) st hc]
+
+theorem firstLine_noNl (l : List Char) (h : '\n' ∉ l) : firstLine l = l := by
+  induction l with
+  | nil => rfl
+  | cons a l ih =>
+    have ha : a ≠ '\n' := fun e => h (by simp [e])
+    have hl : '\n' ∉ l := fun hm => h (by simp [hm])
+    unfold firstLine at ih ⊢
+    simp [ha, ih hl]
+
+theorem firstLine_line (l r : List Char) (h : '\n' ∉ l) : firstLine (l ++ '\n' :: r) = l := by
+  induction l with
+  | nil => simp [firstLine]
+  | cons a l ih =>
+    have ha : a ≠ '\n' := fun e => h (by simp [e])
+    have hl : '\n' ∉ l := fun hm => h (by simp [hm])
+    unfold firstLine at ih ⊢
+    simp [ha, ih hl]
+
+theorem firstLine_crlf (t : List Char) (p0 : List Char × Bool) (rest : List (List Char × Bool))
+    (hs : splitNl t = p0 :: rest) : firstLine (crlfToLf t) = lineOf p0 := by
+  have hp := splitNl_pieces t
+  have hn := splitNl_noNl t
+  have hcr : crlfToLf t = joinNl ((splitNl t).map normPiece) := by
+    rw [← crlfToLf_joinNl _ hp hn, joinNl_splitNl]
+  rw [hs] at hcr hp hn
+  have hl := lineOf_noNl p0 (hn p0 (by simp))
+  rw [hcr, (out_after_first true true Source.empty p0 rest hp hn).2]
+  unfold restText
+  split
+  · exact firstLine_line _ _ hl
+  · simpa using firstLine_noNl _ hl
+
+
+/-- Monitor (1) in its stale-aware form holds of the model from every state whose line bookkeeping
+is either intact or stale exactly as the spec side tracks it. -/
+theorem contentStepAt_model (st : Source) (stale : Bool) (t : List Char) (interp : Bool)
+    (hls : st.continuingLine = false → stale = false → LineStart st.s) :
+    contentStepAt (stale && !st.continuingLine) st.indent st.s (pushStrImpl st t interp).s t interp ≠ .other := by
+  unfold contentStepAt
+  cases hplain : contentStep st.s (pushStrImpl st t interp).s t interp with
+  | ok => simp
+  | known l => simp
+  | stale l => simp
+  | other =>
+    simp only
+    cases hc : st.continuingLine with
+    | true =>
+      exact absurd hplain (contentStep_model st t interp (by simp [hc])).1
+    | false =>
+      cases hst : stale with
+      | false => exact absurd hplain (contentStep_model st t interp (fun h => hls h hst)).1
+      | true =>
+        cases hs : splitNl t with
+        | nil =>
+          have : t = [] := by rw [← joinNl_splitNl t, hs]; rfl
+          subst this
+          exact absurd hplain (by simp [pushStrImpl_eq, splitNl, contentStep, contentEq])
+        | cons p0 rest =>
+          have hkey := (contentStep_model (withIndent st (lineOf p0)) t interp (by simp [withIndent])).1
+          rw [← pushStrImpl_stale st t interp hc p0 rest hs] at hkey
+          rw [firstLine_crlf t p0 rest hs]
+          cases he : (lineOf p0).isEmpty with
+          | true =>
+            simp only [withIndent, he, if_true] at hkey
+            exact absurd hplain hkey
+          | false =>
+            simp only [withIndent, he, Bool.false_eq_true, if_false] at hkey
+            simp only [Bool.and_self, Bool.not_false, if_true, ne_eq]
+            have hsp : st.s ++ SourceSpec.spaces (2 * st.indent) = st.s ++ Source.spaces st.indent := rfl
+            rw [hsp]
+            cases hb : contentStep (st.s ++ Source.spaces st.indent) (pushStrImpl st t interp).s t interp with
+            | other => exact absurd hb hkey
+            | ok => simp
+            | known l => simp
+            | stale l => simp
+
+/-! ### the complete monitor (`monitorAll`) on the model -/
+
+theorem fold_cont (single interp : Bool) (ps : List (List Char × Bool)) :
+    ∀ (st : Source) (tr : Track), tr.midLine = st.continuingLine →
+      ((ps.map (mkPiece single interp)).foldl Track.piece tr).midLine = (ps.foldl (pushPiece single interp) st).continuingLine := by
+  induction ps with
+  | nil => intro st tr h; exact h
+  | cons p ps ih =>
+    intro st tr _
+    apply ih
+    unfold pushPiece
+    cases hp : p.2 <;> simp [Track.piece, mkPiece, hp, pushLine, newline]
+
+theorem fold_lineStart (single interp : Bool) (ps : List (List Char × Bool)) (hne : ps ≠ []) :
+    ∀ st : Source, (ps.foldl (pushPiece single interp) st).continuingLine = false →
+      LineStart (ps.foldl (pushPiece single interp) st).s := by
+  induction ps with
+  | nil => exact absurd rfl hne
+  | cons p ps ih =>
+    intro st h
+    cases ps with
+    | nil =>
+      simp only [List.foldl_cons, List.foldl_nil, pushPiece] at h ⊢
+      split
+      · exact newline_lineStart _
+      · rename_i hp; simp [hp, pushLine] at h
+    | cons q r => exact ih (by simp) _ h
+
+/-- what is always maintained between the model state and the spec-side bookkeeping -/
+structure AInv (st : Source) (tr : Track) (ax : Aux) : Prop where
+  mid : tr.midLine = st.continuingLine
+  ls : st.continuingLine = false → ax.stale = false → LineStart st.s
+  cm : tr.midLine = false → tr.inComment = false
+  fresh : tr.sync = true → ax.stale = false
+  buf : tr.sync = true → ax.lineView = true → ax.split = false → tr.levelOk = true → tr.midLine = false →
+    tr.level = ax.explicit + bufferLevel st.s
+
+theorem ainv_empty : AInv Source.empty Track.init {} :=
+  ⟨rfl, fun _ _ => Or.inl rfl, fun _ => rfl, fun _ => rfl, fun _ _ _ _ _ => rfl⟩
+
+theorem splitNl_eq_nil (t : List Char) : splitNl t = [] ↔ t = [] := by
+  cases t with
+  | nil => simp [splitNl]
+  | cons c cs => simp [splitNl_ne_nil]
+
+theorem ainv_text (st : Source) (tr : Track) (ax : Aux) (h : AInv st tr ax) (hrel : tr.sync = true → Rel st tr)
+    (interp : Bool) (t : List Char) :
+    AInv (pushStrImpl st t interp) (trackReq tr (.text interp t)) (auxReq tr ax (.text interp t)) := by
+  have hsync : (trackReq tr (.text interp t)).sync = tr.sync := pieces_sync _ _
+  by_cases ht : t = []
+  · subst ht
+    have e1 : pushStrImpl st [] interp = st := by simp [pushStrImpl_eq, splitNl]
+    have e2 : trackReq tr (.text interp []) = tr := by simp [trackReq, piecesOf, splitNl, Track.pieces]
+    rw [e1, e2]
+    refine ⟨h.mid, ?_, h.cm, ?_, ?_⟩
+    · simpa [auxReq] using h.ls
+    · simpa [auxReq] using h.fresh
+    · intro hs hv hsp hok hm
+      simp only [auxReq, List.isEmpty_nil, Bool.not_true, Bool.and_false, Bool.or_false, Bool.and_eq_true] at hv hsp ⊢
+      exact h.buf hs hv.1 hsp hok hm
+  · have hne : splitNl t ≠ [] := fun e => ht ((splitNl_eq_nil t).mp e)
+    have hte : t.isEmpty = false := by simpa using ht
+    have hmid : (trackReq tr (.text interp t)).midLine = (pushStrImpl st t interp).continuingLine := by
+      rw [pushStrImpl_eq]; simp only [trackReq, Track.pieces, piecesOf_eq]
+      exact fold_cont _ _ _ st tr h.mid
+    refine ⟨hmid, ?_, ?_, ?_, ?_⟩
+    · intro hc _
+      rw [pushStrImpl_eq] at hc ⊢
+      exact fold_lineStart _ _ _ hne st hc
+    · intro hm
+      simp only [trackReq, Track.pieces] at hm ⊢
+      exact pieces_cm _ tr h.cm hm
+    · intro _; simp [auxReq, hte]
+    · intro hs hv hsp hok hm
+      rw [hsync] at hs
+      have hr := hrel hs
+      simp only [auxReq, hte, Bool.not_false, Bool.and_true, Bool.and_eq_true, Bool.or_eq_false_iff] at hv hsp
+      have hi : interp = true := hv.2
+      subst hi
+      have hm0 : tr.midLine = false := hsp.2
+      have hok0 : tr.levelOk = true := pieces_levelOk_mono _ tr hok
+      have hb0 := h.buf hs hv.1 hsp.1 hok0 hm0
+      -- all pieces are terminated
+      have hlt : lastTerm (splitNl t) = true := by
+        simp only [trackReq, Track.pieces, piecesOf_eq] at hm
+        rw [pieces_midLine _ _ _ hne] at hm
+        simpa using hm
+      have hall := pieces_all_term _ (splitNl_pieces t) hlt
+      have hf := bufferLevel_fold ((splitNl t).length == 1) (splitNl t) hall (splitNl_noNl t) st tr hr
+        (by rw [← h.mid]; exact hm0) (h.cm hm0)
+      simp only [auxReq, trackReq, Track.pieces, piecesOf_eq]
+      rw [pushStrImpl_eq]
+      omega
+
+theorem ainv_step (st : Source) (tr : Track) (ax : Aux) (h : AInv st tr ax) (hrel : tr.sync = true → Rel st tr)
+    (op : Op) (st' : Source) (hs : st.step op = some st') :
+    AInv st' (trackReq tr (reqOf op)) (auxReq tr ax (reqOf op)) := by
+  cases op with
+  | pushStr t => simp only [step, Option.some.injEq] at hs; subst hs; exact ainv_text st tr ax h hrel true t
+  | pushLit t => simp only [step, Option.some.injEq] at hs; subst hs; exact ainv_text st tr ax h hrel false t
+  | indent n =>
+    simp only [step, Option.some.injEq] at hs; subst hs
+    refine ⟨h.mid, h.ls, h.cm, h.fresh, ?_⟩
+    intro a b c d e
+    have := h.buf a b c d e
+    simp only [reqOf, trackReq, auxReq, addIndent] at *
+    omega
+  | deindent n =>
+    simp only [step, deindent] at hs
+    split at hs
+    · simp only [Option.some.injEq] at hs; subst hs
+      refine ⟨h.mid, h.ls, h.cm, h.fresh, ?_⟩
+      intro a b c d e
+      have := h.buf a b c d e
+      simp only [reqOf, trackReq, auxReq] at *
+      omega
+    · simp at hs
+  | setIndent n =>
+    simp only [step, setIndent, Option.some.injEq] at hs; subst hs
+    exact ⟨h.mid, h.ls, h.cm, h.fresh, fun _ hv => by simp [reqOf, auxReq] at hv⟩
+  | appendSrc o =>
+    simp only [step, Option.some.injEq] at hs; subst hs
+    refine ⟨?_, ?_, ?_, ?_, fun _ hv => by simp [reqOf, auxReq] at hv⟩
+    · simp only [reqOf, trackReq, appendSrc]; split <;> exact h.mid
+    · intro hc hst
+      simp only [appendSrc] at hc ⊢
+      simp only [reqOf, auxReq] at hst
+      by_cases hl : o.s.getLast? = some '\n'
+      · right; rw [List.getLast?_append, hl]; rfl
+      · have hl' : (o.s.getLast? == some '\n') = false := by simpa using hl
+        simp only [hl', Bool.false_eq_true, if_false] at hst
+        by_cases he : o.s = []
+        · simp only [he, List.isEmpty_nil, if_true] at hst
+          simpa [he] using h.ls hc hst
+        · have : o.s.isEmpty = false := by simpa using he
+          simp [this] at hst
+    · simp only [reqOf, trackReq]
+      split
+      · intro _; rfl
+      · exact h.cm
+    · simp only [reqOf, trackReq, auxReq]
+      split
+      · rename_i hdom
+        intro hsy
+        simp only [appendInDomain, Bool.and_eq_true, Bool.not_eq_true', Bool.or_eq_true, List.isEmpty_iff, beq_iff_eq] at hdom
+        rcases hdom.2 with he | hl
+        · simp [he, h.fresh hsy]
+        · simp [hl]
+      · intro hsy; simp at hsy
+
+/-- the whole-buffer-line monitor never answers `other` on the model -/
+theorem bufferLine_model (st : Source) (tr : Track) (ax : Aux) (h : AInv st tr ax) (hrel : tr.sync = true → Rel st tr)
+    (old : Option Nat) :
+    bufferLineStep tr ax { indent := st.indent, s := st.s, old := old } ≠ .other := by
+  unfold bufferLineStep
+  split
+  · simp
+  · rename_i hc
+    simp only [Bool.or_eq_true, Bool.not_eq_true', Bool.and_eq_false_iff, not_or, Bool.not_eq_false] at hc
+    obtain ⟨⟨⟨hv, hsy⟩, hok⟩, hm⟩ := hc
+    have hlv := (hrel hsy).lvl hok
+    split
+    · simp
+    · rename_i hne
+      cases hsp : ax.split with
+      | false => exact absurd (by rw [← hlv]; exact h.buf hsy hv hsp hok (by simpa using hm)) hne
+      | true => simp [hlv]
+
+/-- what stays judged after an off-boundary `append_src` holds of the model -/
+theorem offSync_model (st : Source) (tr : Track) (ax : Aux) (prev : Obs) (hprev : ObsOf prev st)
+    (h : AInv st tr ax) (op : Op) (st' : Source) (hs : st.step op = some st') :
+    (offSyncVerdict tr ax prev (reqOf op) (obsAfter st op st')).goodModuloKnown = true := by
+  obtain ⟨hps, hpi⟩ := hprev
+  have htext : ∀ (interp : Bool) (t : List Char),
+      (offSyncVerdict tr ax prev (.text interp t)
+        { indent := (pushStrImpl st t interp).indent, s := (pushStrImpl st t interp).s, old := none }).goodModuloKnown = true := by
+    intro interp t
+    have hc := contentStepAt_model st ax.stale t interp h.ls
+    have hl : (interp || (pushStrImpl st t interp).indent == st.indent) = true := by
+      cases interp
+      · simp [literal_indent st t]
+      · rfl
+    simp only [offSyncVerdict, Verdict.goodModuloKnown, hps, hpi, h.mid, Bool.and_true, Bool.and_eq_true, bne_iff_ne, ne_eq]
+    exact ⟨hc, hl⟩
+  cases op with
+  | pushStr t => simp only [step, Option.some.injEq] at hs; subst hs; exact htext true t
+  | pushLit t => simp only [step, Option.some.injEq] at hs; subst hs; exact htext false t
+  | indent n =>
+    simp only [step, Option.some.injEq] at hs; subst hs
+    simp [offSyncVerdict, reqOf, obsAfter, addIndent, hps, Verdict.goodModuloKnown]
+  | deindent n =>
+    simp only [step, deindent] at hs
+    split at hs
+    · rename_i hle
+      simp only [Option.some.injEq] at hs; subst hs
+      simp [offSyncVerdict, reqOf, obsAfter, hps, hpi, Verdict.goodModuloKnown]; omega
+    · simp at hs
+  | setIndent n =>
+    simp only [step, setIndent, Option.some.injEq] at hs; subst hs
+    simp [offSyncVerdict, reqOf, obsAfter, hps, hpi, Verdict.goodModuloKnown]
+  | appendSrc o =>
+    simp only [step, Option.some.injEq] at hs; subst hs
+    simp [offSyncVerdict, reqOf, obsAfter, appendSrc, hps, Verdict.goodModuloKnown]
+
+/-- initial observation -/
+def obs0 : Obs := { indent := 0, s := [] }
+
+/-- The complete C25 monitor holds of every observed history of the model: base verdicts are good
+up to the known content losses (and, after an off-boundary `append_src`, the content / literal /
+API parts still are), and the whole-buffer-line reading never fails in an unexplained way. -/
+theorem monitorAll_model (ops : List Op) :
+    ∀ (st : Source) (tr : Track) (ax : Aux) (prev : Obs), ObsOf prev st → AInv st tr ax →
+      (tr.sync = true → Rel st tr) → WFOps ops →
+      ∀ v ∈ monitorAll tr ax prev (observe st ops), v.goodModuloKnown = true := by
+  induction ops with
+  | nil => intro st tr ax prev _ _ _ _; simp [observe, monitorAll]
+  | cons op ops ih =>
+    intro st tr ax prev hprev hinv hrel hwf
+    have hwf' : WFOps ops := fun o ho => hwf o (by simp [ho])
+    have hop : ∀ o, op = .appendSrc o → Reachable o := fun o ho => hwf o (by simp [ho])
+    cases hs : st.step op with
+    | none =>
+      obtain ⟨n, rfl, hlt⟩ := step_none st op hs
+      simp only [observe, hs, reqOf, monitorAll, List.mem_singleton]
+      intro v hv; subst hv
+      simp [VerdictAll.goodModuloKnown, Verdict.goodModuloKnown, hprev.2, hlt]
+    | some st' =>
+      obtain ⟨hg, hr', _⟩ := step_good st tr prev hprev hrel op hop st' hs
+      have hinv' := ainv_step st tr ax hinv hrel op st' hs
+      have hprev' : ObsOf (obsAfter st op st') st' := ⟨rfl, rfl⟩
+      have hrest := ih st' (trackReq tr (reqOf op)) (auxReq tr ax (reqOf op)) (obsAfter st op st') hprev' hinv' hr' hwf'
+      simp only [observe, hs, monitorAll, List.mem_cons]
+      rintro v (rfl | hv)
+      · simp only [VerdictAll.goodModuloKnown, Bool.and_eq_true, bne_iff_ne, ne_eq]
+        constructor
+        · unfold stepVerdictAll
+          split
+          · exact hg
+          · exact offSync_model st tr ax prev hprev hinv op st' hs
+        · exact bufferLine_model st' _ _ hinv' hr' _
+      · exact hrest v hv
+
+/-- … and with exact content when no known loss is applicable at any step and `append_src` stays on
+line boundaries. -/
+theorem monitorAll_model_partial (ops : List Op) :
+    ∀ (st : Source) (tr : Track) (ax : Aux) (prev : Obs), ObsOf prev st → (tr.sync = true → Rel st tr) → WFOps ops →
+      SafeFrom st ops → (trackOps tr ops).sync = true →
+      ∀ v ∈ monitorAll tr ax prev (observe st ops), v.base.good = true := by
+  induction ops with
+  | nil => intro st tr ax prev _ _ _ _ _; simp [observe, monitorAll]
+  | cons op ops ih =>
+    intro st tr ax prev hprev hrel hwf hsafe hsync
+    have hwf' : WFOps ops := fun o ho => hwf o (by simp [ho])
+    have hop : ∀ o, op = .appendSrc o → Reachable o := fun o ho => hwf o (by simp [ho])
+    have hsy' : (trackReq tr (reqOf op)).sync = true := trackOps_sync ops _ hsync
+    have hsy : tr.sync = true := sync_mono _ _ hsy'
+    cases hs : st.step op with
+    | none =>
+      obtain ⟨n, rfl, hlt⟩ := step_none st op hs
+      simp only [observe, hs, reqOf, monitorAll, List.mem_singleton]
+      intro v hv; subst hv
+      simp [Verdict.good, hprev.2, hlt]
+    | some st' =>
+      obtain ⟨hg, hr', hc⟩ := step_good st tr prev hprev hrel op hop st' hs
+      simp only [SafeFrom, hs] at hsafe
+      have hprev' : ObsOf (obsAfter st op st') st' := ⟨rfl, rfl⟩
+      have hrest := ih st' (trackReq tr (reqOf op)) (auxReq tr ax (reqOf op)) (obsAfter st op st') hprev' hr' hwf'
+        hsafe.2 hsync
+      simp only [observe, hs, monitorAll, List.mem_cons]
+      rintro v (rfl | hv)
+      · simp only [stepVerdictAll, hsy, hsy', Bool.and_self, if_true]
+        exact good_of_known _ hg (hc hsafe.1)
+      · exact hrest v hv
+
+/-- the spec-side bookkeeping after a history -/
+def auxOps (tr : Track) (ax : Aux) : List Op → Aux
+  | [] => ax
+  | op :: ops => auxOps (trackReq tr (reqOf op)) (auxReq tr ax (reqOf op)) ops
+
+theorem trackOps_cons (tr : Track) (op : Op) (ops : List Op) :
+    trackOps tr (op :: ops) = trackOps (trackReq tr (reqOf op)) ops := rfl
+
+theorem ainv_run (ops : List Op) :
+    ∀ (st : Source) (tr : Track) (ax : Aux), AInv st tr ax → (tr.sync = true → Rel st tr) → WFOps ops →
+      ∀ st', run st ops = some st' → AInv st' (trackOps tr ops) (auxOps tr ax ops) := by
+  induction ops with
+  | nil => intro st tr ax h _ _ st' hr; simp only [run, Option.some.injEq] at hr; subst hr; exact h
+  | cons op ops ih =>
+    intro st tr ax h hrel hwf st' hr
+    cases hs : st.step op with
+    | none => simp [run, hs] at hr
+    | some st1 =>
+      simp only [run, hs] at hr
+      have hop : ∀ o, op = .appendSrc o → Reachable o := fun o ho => hwf o (by simp [ho])
+      obtain ⟨_, hr', _⟩ := step_good st tr { indent := st.indent, s := st.s } ⟨rfl, rfl⟩ hrel op hop st1 hs
+      exact ih st1 _ _ (ainv_step st tr ax h hrel op st1 hs) hr' (fun o ho => hwf o (by simp [ho])) st' hr
+
 end Witverif.Text.Source
